@@ -1460,3 +1460,15 @@ mod test {
 		assert!(PaymentHash::from_base32(&input).is_err());
 	}
 }
+
+#[cfg(feature = "_verif")]
+#[allow(missing_docs)]
+pub mod verif_hooks {
+	use super::*;
+	pub fn parse_u16_be(digits: &[Fe32]) -> Option<u16> {
+		super::parse_u16_be(digits)
+	}
+	pub fn parse_u64_be(digits: &[Fe32]) -> Option<u64> {
+		super::parse_u64_be(digits)
+	}
+}
